@@ -4,6 +4,8 @@
   container, index and bound expressions evaluate to, the result is the `List` operation named in the theorem.
 -/
 import SeedModel.Eval
+import SeedModel.Run
+import SeedProofs.Lemmas.C11Prog3
 namespace Seed.C11
 open Seed Gen
 
@@ -181,5 +183,562 @@ theorem splice_is_take_ys_drop {α} (xs ys : List α) (a b : Nat) (hlen : b - a 
 /-- non-vacuity: a concrete range assignment on a 5-element list -/
 example : listSplice [1, 2, 3, 4, 5] 2 [7, 8, 9] = [1, 2, 7, 8, 9] := by decide
 example : listSplice [1, 2, 3, 4, 5] 1 [0] = [1, 0, 3, 4, 5] := by decide
+
+end Seed.C11
+
+/-! # End to end: the laws composed through the evaluator
+
+  The theorems above are about the primitives and about one evaluator step.  Below they are composed through
+  `evalExpr` (`e[i]`, `e[a:b]`, `+`, `==`), `evalToIndex` / `evalOptIndex` (the index and bound expressions) and
+  `evalStmt` / `bindNext` / `bindRangeIndex` (`x[i] = e`, `x[a:b] = e`) into statements about whole expressions and
+  statements (helper lemmas: Lemmas/C11Prog1–3.lean).  Fuel is explicit: the sub-expressions are hypotheses at fuel `n`
+  (by G1 they hold at every larger fuel), the conclusion is an equation at `n + c`.  An index or bound "evaluates to
+  the integer `k`" — any integer, so negative indices are covered; `Bound n sc σ b r σ'` says that the optional bound
+  `b` is omitted (`r = none`, `σ' = σ`) or evaluates to the integer `r = some k`; `rangeLo` / `rangeHi` are the ends
+  of the range with the defaults `0` / the length filled in.
+-/
+-- audit: Seed.evalToIndex_int Seed.evalToIndex_non_int Seed.evalOptIndex_bound Seed.evalOptIndex_bound_neg Seed.evalExpr_index_list Seed.evalExpr_index_str Seed.evalExpr_range_list Seed.evalExpr_range_str Seed.evalExpr_range_neg_start Seed.evalExpr_range_neg_stop Seed.evalExpr_sum_lists Seed.evalExpr_sum_strs Seed.getList_alloc_old Seed.getList_alloc_new Seed.scopeGet_alloc
+-- audit: Seed.eqVal_self Seed.eqItems_self Seed.eqVal_same_items Seed.evalExpr_var Seed.evalExpr_prefix_var Seed.evalExpr_suffix_var Seed.evalExpr_split_join Seed.evalExpr_concat_index Seed.evalExpr_concat_index_str
+-- audit: Seed.listSet_getElem? Seed.listSet_len Seed.listSplice_getElem? Seed.listSplice_len Seed.assign_index_stmt Seed.set_list_facts Seed.index_after_assign Seed.assign_range_stmt Seed.assign_range_bad_rhs Seed.index_after_range_assign Seed.evalStmts_after Seed.evalStmts_stmt_err
+namespace Seed.C11
+open Seed Gen
+
+/-! ## example state -/
+
+/-- scope 0: `x ↦ list 1`, `y ↦ list 2`, `s ↦ "héllo"`; list 1 = `[10, 20, 30]`; list 2 = `[7]` -/
+def σd : State :=
+  ⟨#[.scope [(c!"x", SVal.plain (.list 1), (1, 0)), (c!"y", SVal.plain (.list 2), (2, 0)),
+             (c!"s", SVal.plain (.str (utf8Encode c!"héllo")), (3, 0))],
+     .list [SVal.plain (.int 10), SVal.plain (.int 20), SVal.plain (.int 30)],
+     .list [SVal.plain (.int 7)]], []⟩
+
+def eX : Expr := .mk (.Var c!"x") (4, 0)
+def eY : Expr := .mk (.Var c!"y") (4, 4)
+def eS : Expr := .mk (.Var c!"s") (4, 0)
+def eInt (k : Int) : Expr := .mk (.Int k) (4, 2)
+/-- `0 - 1`: an index expression whose value is negative -/
+def eNeg : Expr := .mk (.BinaryOp .Sub (4, 4) (.mk (.Int 0) (4, 2)) (.mk (.Int 1) (4, 6))) (4, 2)
+
+theorem σd_x (n : Nat) : evalExpr (n + 1) σd [0] eX = .ok ⟨.list 1, none⟩ σd := evalExpr_var n _ (by rfl)
+theorem σd_y (n : Nat) : evalExpr (n + 1) σd [0] eY = .ok ⟨.list 2, none⟩ σd := evalExpr_var n _ (by rfl)
+theorem σd_s (n : Nat) : evalExpr (n + 1) σd [0] eS = .ok ⟨.str (utf8Encode c!"héllo"), none⟩ σd :=
+  evalExpr_var n _ (by rfl)
+theorem eInt_eval (n : Nat) (σ : State) (sc : List Addr) (k : Int) :
+    evalExpr (n + 1) σ sc (eInt k) = .ok ⟨.int k, none⟩ σ := by rw [eInt, evalExpr]; rfl
+theorem eNeg_eval (σ : State) (sc : List Addr) : evalExpr 2 σ sc eNeg = .ok ⟨.int (-1), none⟩ σ := by
+  with_unfolding_all rfl
+theorem σd_list1 : σd.getList 1 = some [SVal.plain (.int 10), SVal.plain (.int 20), SVal.plain (.int 30)] := by rfl
+theorem σd_list2 : σd.getList 2 = some [SVal.plain (.int 7)] := by rfl
+
+/-! ## (1) reads outside `[0, len)` are errors, never wrap or clamp -/
+
+/-- **`e[i]` on a list.**  `e` evaluates to the list cell `a` (`σ → σ1`), then `i` to the integer `k` (`σ1 → σ2`), the
+    cell holds `xs` then.  The result is `xs[k]` exactly for `0 ≤ k < len xs`; a negative `k` is the error
+    `index can't be negative` at the index expression, `k ≥ len` the error `index 'k' is outside the list bounds` at
+    the whole expression — there is no wrapping from the end and no clamping. -/
+theorem eval_index_list {n : Nat} {σ σ1 σ2 : State} {sc : List Addr} {e i : Expr} (loc : Loc) {a : Addr}
+    {s si : Option Val} {k : Int} {xs : List SVal}
+    (he : evalExpr n σ sc e = .ok ⟨.list a, s⟩ σ1) (hi : evalExpr n σ1 sc i = .ok ⟨.int k, si⟩ σ2)
+    (hxs : σ2.getList a = some xs) :
+    (∀ (_ : 0 ≤ k) (hlt : k.toNat < xs.length),
+      evalExpr (n + 3) σ sc (.mk (.Index e i) loc) = .ok xs[k.toNat] σ2) ∧
+    (k < 0 → evalExpr (n + 3) σ sc (.mk (.Index e i) loc) = errAt i.loc (Leaf.NegativeIndex k) σ2) ∧
+    (0 ≤ k → xs.length ≤ k.toNat →
+      evalExpr (n + 3) σ sc (.mk (.Index e i) loc) = errAt loc (Leaf.OutOfListBounds k.toNat) σ2) ∧
+    (∀ v σ', evalExpr (n + 3) σ sc (.mk (.Index e i) loc) = .ok v σ' →
+      0 ≤ k ∧ k.toNat < xs.length ∧ xs[k.toNat]? = some v ∧ σ' = σ2) := by
+  have h := evalExpr_index_list loc he hi hxs
+  refine ⟨fun h0 hlt => ?_, fun hk => ?_, fun h0 hge => ?_, fun v σ' hv => ?_⟩
+  · rw [h, if_neg (by omega), List.getElem?_eq_getElem hlt]
+  · rw [h, if_pos hk]
+  · rw [h, if_neg (by omega), List.getElem?_eq_none hge]
+  · rw [h] at hv
+    by_cases hk : k < 0
+    · rw [if_pos hk] at hv; cases hv
+    · rw [if_neg hk] at hv
+      cases hg : xs[k.toNat]? with
+      | none => rw [hg] at hv; cases hv
+      | some w =>
+        rw [hg] at hv
+        cases hv
+        exact ⟨by omega, (List.getElem?_eq_some_iff.mp hg).1, rfl, rfl⟩
+
+/-- `x[1]` is `20`, `x[3]` and `x[0 - 1]` are the two errors, in the example state -/
+example :
+    evalExpr 4 σd [0] (.mk (.Index eX (eInt 1)) (4, 0)) = .ok (SVal.plain (.int 20)) σd ∧
+    evalExpr 4 σd [0] (.mk (.Index eX (eInt 3)) (4, 0)) = errAt (4, 0) (Leaf.OutOfListBounds 3) σd ∧
+    evalExpr 5 σd [0] (.mk (.Index eX eNeg) (4, 0)) = errAt (4, 2) (Leaf.NegativeIndex (-1)) σd :=
+  ⟨(eval_index_list (4, 0) (σd_x 0) (eInt_eval 0 σd [0] 1) σd_list1).1 (by decide) (by decide),
+   (eval_index_list (4, 0) (σd_x 0) (eInt_eval 0 σd [0] 3) σd_list1).2.2.1 (by decide) (by decide),
+   (eval_index_list (4, 0) (σd_x 1) (eNeg_eval σd [0]) σd_list1).2.1 (by decide)⟩
+
+/-- **`e[i]` on a string**: bytes; the result is the one-byte string `[bs[k]]` exactly for `0 ≤ k < len bs` -/
+theorem eval_index_str {n : Nat} {σ σ1 σ2 : State} {sc : List Addr} {e i : Expr} (loc : Loc) {bs : Bytes}
+    {s si : Option Val} {k : Int}
+    (he : evalExpr n σ sc e = .ok ⟨.str bs, s⟩ σ1) (hi : evalExpr n σ1 sc i = .ok ⟨.int k, si⟩ σ2) :
+    (∀ (_ : 0 ≤ k) (hlt : k.toNat < bs.length),
+      evalExpr (n + 3) σ sc (.mk (.Index e i) loc) = .ok (SVal.plain (.str [bs[k.toNat]])) σ2) ∧
+    (k < 0 → evalExpr (n + 3) σ sc (.mk (.Index e i) loc) = errAt i.loc (Leaf.NegativeIndex k) σ2) ∧
+    (0 ≤ k → bs.length ≤ k.toNat →
+      evalExpr (n + 3) σ sc (.mk (.Index e i) loc) = errAt loc (Leaf.OutOfStringBounds k.toNat) σ2) ∧
+    (∀ v σ', evalExpr (n + 3) σ sc (.mk (.Index e i) loc) = .ok v σ' →
+      0 ≤ k ∧ k.toNat < bs.length ∧ σ' = σ2) := by
+  have h := evalExpr_index_str loc he hi
+  refine ⟨fun h0 hlt => ?_, fun hk => ?_, fun h0 hge => ?_, fun v σ' hv => ?_⟩
+  · rw [h, if_neg (by omega), List.getElem?_eq_getElem hlt]
+  · rw [h, if_pos hk]
+  · rw [h, if_neg (by omega), List.getElem?_eq_none hge]
+  · rw [h] at hv
+    by_cases hk : k < 0
+    · rw [if_pos hk] at hv; cases hv
+    · rw [if_neg hk] at hv
+      cases hg : bs[k.toNat]? with
+      | none => rw [hg] at hv; cases hv
+      | some w =>
+        rw [hg] at hv
+        cases hv
+        exact ⟨by omega, (List.getElem?_eq_some_iff.mp hg).1, rfl⟩
+
+/-- `s[1]` on `"héllo"` is the single byte `0xC3` (not a character), `s[6]` is out of bounds (the string has 6 bytes) -/
+example :
+    evalExpr 4 σd [0] (.mk (.Index eS (eInt 1)) (4, 0)) = .ok (SVal.plain (.str [0xC3])) σd ∧
+    evalExpr 4 σd [0] (.mk (.Index eS (eInt 6)) (4, 0)) = errAt (4, 0) (Leaf.OutOfStringBounds 6) σd :=
+  ⟨(eval_index_str (4, 0) (σd_s 0) (eInt_eval 0 σd [0] 1)).1 (by decide) (by decide),
+   (eval_index_str (4, 0) (σd_s 0) (eInt_eval 0 σd [0] 6)).2.2.1 (by decide) (by decide)⟩
+
+/-- a value that is not an integer is not an index: the type error at the index expression -/
+theorem eval_index_non_int {n : Nat} {σ σ1 σ2 : State} {sc : List Addr} {e i : Expr} (loc : Loc) {a : Addr}
+    {s : Option Val} {w : SVal}
+    (he : evalExpr n σ sc e = .ok ⟨.list a, s⟩ σ1) (hi : evalExpr n σ1 sc i = .ok w σ2) (hw : ∀ k, w.v ≠ .int k) :
+    evalExpr (n + 3) σ sc (.mk (.Index e i) loc) =
+      errAt i.loc (Leaf.IncorrectType c!"index" c!"int" w.v.kind) σ2 := by
+  rw [evalExpr, evalExpr_fuel_mono he (by simp) (by omega : n ≤ n + 2)]
+  simp only [Res.bind, evalToIndex_non_int hw hi, errAt]
+
+example : evalExpr 4 σd [0] (.mk (.Index eX eY) (4, 0)) = errAt (4, 4) (Leaf.IncorrectType c!"index" c!"int" .List) σd :=
+  eval_index_non_int (4, 0) (σd_x 0) (σd_y 0) (by intro k h; cases h)
+
+/-! ## (2) slices -/
+
+/-- **`e[a:b]` on a list**, each bound present or omitted (order of evaluation: start, end, then `e`).  With `lo` / `hi`
+    the bounds or their defaults `0` / `len xs`: exactly when `lo ≤ hi ≤ len xs` the result is a FRESH list cell — its
+    address is the heap size, no existing cell, and every existing cell is unchanged — holding
+    `(xs.drop lo).take (hi - lo)`; otherwise `range [lo:hi] is outside the list bounds`. -/
+theorem eval_slice {n : Nat} {σ σ1 σ2 σ3 : State} {sc : List Addr} {e : Expr} {start stop : Option Expr}
+    (loc : Loc) {ra rb : Option Int} {a : Addr} {s : Option Val} {xs : List SVal}
+    (hA : Bound n sc σ start ra σ1) (hB : Bound n sc σ1 stop rb σ2) (hra : NonNeg ra) (hrb : NonNeg rb)
+    (he : evalExpr n σ2 sc e = .ok ⟨.list a, s⟩ σ3) (hxs : σ3.getList a = some xs) :
+    evalExpr (n + 4) σ sc (.mk (.RangeIndex e start stop) loc) =
+      (if rangeLo ra ≤ rangeHi rb xs.length ∧ rangeHi rb xs.length ≤ xs.length
+       then .ok (SVal.plain (.list σ3.heap.size))
+          (σ3.alloc (.list ((xs.drop (rangeLo ra)).take (rangeHi rb xs.length - rangeLo ra)))).2
+       else errAt loc (Leaf.RangeOutOfListBounds (rangeLo ra) (rangeHi rb xs.length)) σ3) ∧
+    σ3.heap[σ3.heap.size]? = none ∧
+    (∀ ys, (σ3.alloc (.list ys)).2.getList σ3.heap.size = some ys ∧
+      ∀ b, b < σ3.heap.size → (σ3.alloc (.list ys)).2.heap[b]? = σ3.heap[b]?) :=
+  ⟨evalExpr_range_list loc hA hB hra hrb he hxs, Array.getElem?_eq_none (Nat.le_refl _),
+    fun ys => ⟨getList_alloc_new σ3 ys, fun _ hb => σ3.alloc_heap_old _ hb⟩⟩
+
+/-- `x[1:]` in the example state: a new cell 3 holding `[20, 30]`; `x[2:1]` is the error -/
+example :
+    evalExpr 5 σd [0] (.mk (.RangeIndex eX (some (eInt 1)) none) (4, 0)) =
+      .ok (SVal.plain (.list 3)) (σd.alloc (.list [SVal.plain (.int 20), SVal.plain (.int 30)])).2 ∧
+    evalExpr 5 σd [0] (.mk (.RangeIndex eX (some (eInt 2)) (some (eInt 1))) (4, 0)) =
+      errAt (4, 0) (Leaf.RangeOutOfListBounds 2 1) σd :=
+  ⟨(eval_slice (4, 0) (.given (eInt_eval 0 σd [0] 1)) (.omitted σd) (by decide) (by decide) (σd_x 0) σd_list1).1,
+   (eval_slice (4, 0) (.given (eInt_eval 0 σd [0] 2)) (.given (eInt_eval 0 σd [0] 1)) (by decide) (by decide) (σd_x 0)
+      σd_list1).1⟩
+
+/-- **`e[a:b]` on a string**: the bytes `(bs.drop lo).take (hi - lo)` exactly when `lo ≤ hi ≤ len bs`; no cell -/
+theorem eval_slice_str {n : Nat} {σ σ1 σ2 σ3 : State} {sc : List Addr} {e : Expr} {start stop : Option Expr}
+    (loc : Loc) {ra rb : Option Int} {s : Option Val} {bs : Bytes}
+    (hA : Bound n sc σ start ra σ1) (hB : Bound n sc σ1 stop rb σ2) (hra : NonNeg ra) (hrb : NonNeg rb)
+    (he : evalExpr n σ2 sc e = .ok ⟨.str bs, s⟩ σ3) :
+    evalExpr (n + 4) σ sc (.mk (.RangeIndex e start stop) loc) =
+      if rangeLo ra ≤ rangeHi rb bs.length ∧ rangeHi rb bs.length ≤ bs.length
+      then .ok (SVal.plain (.str ((bs.drop (rangeLo ra)).take (rangeHi rb bs.length - rangeLo ra)))) σ3
+      else errAt loc (Leaf.RangeOutOfStringBounds (rangeLo ra) (rangeHi rb bs.length)) σ3 :=
+  evalExpr_range_str loc hA hB hra hrb he
+
+/-- `s[1:3]` on `"héllo"` is the two bytes of `é` -/
+example : evalExpr 5 σd [0] (.mk (.RangeIndex eS (some (eInt 1)) (some (eInt 3))) (4, 0)) =
+    .ok (SVal.plain (.str (utf8Encode c!"é"))) σd :=
+  eval_slice_str (4, 0) (.given (eInt_eval 0 σd [0] 1)) (.given (eInt_eval 0 σd [0] 3)) (by decide) (by decide) (σd_s 0)
+
+/-- **a negative bound** is `index can't be negative` at that bound; what comes after it (the end, the sequence) is
+    not evaluated -/
+theorem eval_slice_negative {n : Nat} {σ σ1 σ2 : State} {sc : List Addr} {e eb : Expr} (loc : Loc) {k : Int}
+    (hk : k < 0) :
+    (∀ stop, Bound n sc σ (some eb) (some k) σ1 →
+      evalExpr (n + 4) σ sc (.mk (.RangeIndex e (some eb) stop) loc) = errAt eb.loc (Leaf.NegativeIndex k) σ1) ∧
+    (∀ start ra, Bound n sc σ start ra σ1 → NonNeg ra → Bound n sc σ1 (some eb) (some k) σ2 →
+      evalExpr (n + 4) σ sc (.mk (.RangeIndex e start (some eb)) loc) = errAt eb.loc (Leaf.NegativeIndex k) σ2) :=
+  ⟨fun _ hA => evalExpr_range_neg_start loc hA hk, fun _ _ hA hra hB => evalExpr_range_neg_stop loc hA hra hB hk⟩
+
+example : evalExpr 6 σd [0] (.mk (.RangeIndex eX (some eNeg) none) (4, 0)) = errAt (4, 2) (Leaf.NegativeIndex (-1)) σd :=
+  (eval_slice_negative (σ2 := σd) (4, 0) (by decide)).1 none (.given (eNeg_eval σd [0]))
+
+/-! ## (3) `x[:k] + x[k:] == x`, `(x + y)[i]` -/
+
+/-- **`(x[:k1] + x[k2:]) == x` is `true`** for a list variable `x` (holding the cell `a` with items `xs`, none of them a
+    function — two functions are not comparable by definition, C10) and bound expressions that evaluate to the same
+    `k`, `0 ≤ k ≤ len xs`, without effects; at every fuel `m ≥ n + len xs + 6`.  The state afterwards has the three new
+    cells `xs.take k`, `xs.drop k`, `xs`; `x` and its cell are untouched. -/
+theorem slice_concat_law {n : Nat} {σ : State} {sc : List Addr} {x : List Char} {a : Addr} {s s1 s2 : Option Val}
+    {xs : List SVal} {k : Int} {k1 k2 : Expr} (l1 l2 l3 l4 l5 lp le lo : Loc)
+    (hx : scopeGet σ sc x = some ⟨.list a, s⟩) (hxs : σ.getList a = some xs) (hfn : ∀ v ∈ xs, v.v.NotFn)
+    (hk0 : 0 ≤ k) (hk : k.toNat ≤ xs.length)
+    (hk1 : evalExpr n σ sc k1 = .ok ⟨.int k, s1⟩ σ)
+    (hk2 : evalExpr n (σ.alloc (.list (xs.take k.toNat))).2 sc k2 =
+      .ok ⟨.int k, s2⟩ (σ.alloc (.list (xs.take k.toNat))).2)
+    {m : Nat} (hm : n + xs.length + 6 ≤ m) :
+    evalExpr m σ sc
+        (.mk (.BinaryOp .Eq lo
+          (.mk (.BinaryOp .Sum lp (.mk (.RangeIndex (.mk (.Var x) l1) none (some k1)) l2)
+            (.mk (.RangeIndex (.mk (.Var x) l3) (some k2) none) l4)) l5)
+          (.mk (.Var x) le)) l5) =
+      .ok (SVal.plain (.bool true)) (splitJoinState σ xs k.toNat) ∧
+    scopeGet (splitJoinState σ xs k.toNat) sc x = some ⟨.list a, s⟩ ∧
+    (splitJoinState σ xs k.toNat).getList a = some xs :=
+  ⟨evalExpr_split_join l1 l2 l3 l4 l5 lp le lo hx hxs hfn hk0 hk hk1 hk2 hm,
+    scopeGet_alloc _ (scopeGet_alloc _ (scopeGet_alloc _ hx)),
+    getList_alloc_old _ (getList_alloc_old _ (getList_alloc_old _ hxs))⟩
+
+/-- with a literal `k` the two bound hypotheses hold by themselves: for every `k` from `0` to `len xs` -/
+theorem slice_concat_law_literal {σ : State} {sc : List Addr} {x : List Char} {a : Addr} {s : Option Val}
+    {xs : List SVal} (k : Nat) (l1 l2 l3 l4 l5 lp le lo lk1 lk2 : Loc)
+    (hx : scopeGet σ sc x = some ⟨.list a, s⟩) (hxs : σ.getList a = some xs) (hfn : ∀ v ∈ xs, v.v.NotFn)
+    (hk : k ≤ xs.length) {m : Nat} (hm : xs.length + 7 ≤ m) :
+    evalExpr m σ sc
+        (.mk (.BinaryOp .Eq lo
+          (.mk (.BinaryOp .Sum lp (.mk (.RangeIndex (.mk (.Var x) l1) none (some (.mk (.Int k) lk1))) l2)
+            (.mk (.RangeIndex (.mk (.Var x) l3) (some (.mk (.Int k) lk2)) none) l4)) l5)
+          (.mk (.Var x) le)) l5) =
+      .ok (SVal.plain (.bool true)) (splitJoinState σ xs k) := by
+  have h1 : ∀ σ' : State, ∀ l, evalExpr 1 σ' sc (.mk (.Int k) l) = .ok ⟨.int k, none⟩ σ' := fun σ' l => by
+    rw [evalExpr]; rfl
+  exact (slice_concat_law (k := (k : Int)) l1 l2 l3 l4 l5 lp le lo hx hxs hfn (Int.natCast_nonneg k) (by simpa using hk)
+    (h1 σ lk1) (by simpa using h1 _ lk2) (by omega)).1
+
+/-- in the example state, for the split point 2 -/
+example : evalExpr 10 σd [0]
+    (.mk (.BinaryOp .Eq (5, 0)
+      (.mk (.BinaryOp .Sum (5, 0) (.mk (.RangeIndex eX none (some (.mk (.Int (2 : Nat)) (5, 0)))) (5, 0))
+        (.mk (.RangeIndex eX (some (.mk (.Int (2 : Nat)) (5, 0))) none) (5, 0))) (5, 0)) eX) (5, 0)) =
+    .ok (SVal.plain (.bool true))
+      (splitJoinState σd [SVal.plain (.int 10), SVal.plain (.int 20), SVal.plain (.int 30)] 2) :=
+  slice_concat_law_literal 2 _ _ _ _ _ _ _ _ _ _ (by rfl) σd_list1 (by decide) (by decide) (by decide)
+
+/-- **`(e1 + e2)[i]`**: `+` on two lists (cells `a`, `b` holding `xs`, `ys`) allocates `xs ++ ys`; indexing it with
+    `k` gives `xs[k]` for `k < len xs`, `ys[k - len xs]` for `len xs ≤ k < len xs + len ys`, and the bounds error from
+    there on.  (`hstill`: the index expression leaves the new cell alone — automatic for indices without effects.) -/
+theorem concat_index_law {n : Nat} {σ σ1 σ2 σ4 : State} {sc : List Addr} {e1 e2 i : Expr} (lp ls loc : Loc)
+    {a b : Addr} {s t si : Option Val} {xs ys : List SVal} {k : Int}
+    (h1 : evalExpr n σ sc e1 = .ok ⟨.list a, s⟩ σ1) (h2 : evalExpr n σ1 sc e2 = .ok ⟨.list b, t⟩ σ2)
+    (hxs : σ2.getList a = some xs) (hys : σ2.getList b = some ys)
+    (hi : evalExpr (n + 1) (σ2.alloc (.list (xs ++ ys))).2 sc i = .ok ⟨.int k, si⟩ σ4)
+    (hstill : σ4.getList σ2.heap.size = some (xs ++ ys)) (h0 : 0 ≤ k) :
+    (∀ hlt : k.toNat < xs.length,
+      evalExpr (n + 4) σ sc (.mk (.Index (.mk (.BinaryOp .Sum lp e1 e2) ls) i) loc) = .ok xs[k.toNat] σ4) ∧
+    (∀ (_ : xs.length ≤ k.toNat) (hlt : k.toNat - xs.length < ys.length),
+      evalExpr (n + 4) σ sc (.mk (.Index (.mk (.BinaryOp .Sum lp e1 e2) ls) i) loc) =
+        .ok ys[k.toNat - xs.length] σ4) ∧
+    (xs.length + ys.length ≤ k.toNat →
+      evalExpr (n + 4) σ sc (.mk (.Index (.mk (.BinaryOp .Sum lp e1 e2) ls) i) loc) =
+        errAt loc (Leaf.OutOfListBounds k.toNat) σ4) := by
+  have h := evalExpr_concat_index lp ls loc h1 h2 hxs hys hi hstill
+  rw [if_neg (by omega)] at h
+  refine ⟨fun hlt => ?_, fun hge hlt => ?_, fun hge => ?_⟩
+  · rw [h, if_pos hlt, List.getElem?_eq_getElem hlt]
+  · rw [h, if_neg (by omega), List.getElem?_eq_getElem hlt]
+  · rw [h, if_neg (by omega), List.getElem?_eq_none (by omega)]
+
+/-- `(x + y)[3]` is `y[0] = 7` in the example state -/
+example : evalExpr 5 σd [0] (.mk (.Index (.mk (.BinaryOp .Sum (4, 2) eX eY) (4, 0)) (eInt 3)) (4, 0)) =
+    .ok (SVal.plain (.int 7))
+      (σd.alloc (.list [SVal.plain (.int 10), SVal.plain (.int 20), SVal.plain (.int 30), SVal.plain (.int 7)])).2 :=
+  (concat_index_law (4, 2) (4, 0) (4, 0) (σd_x 0) (σd_y 0) σd_list1 σd_list2 (eInt_eval 1 _ [0] 3) (by rfl)
+    (by decide)).2.1 (by decide) (by decide)
+
+/-- on strings likewise, in bytes -/
+theorem concat_index_law_str {n : Nat} {σ σ1 σ2 σ4 : State} {sc : List Addr} {e1 e2 i : Expr} (lp ls loc : Loc)
+    {s t si : Option Val} {xs ys : Bytes} {k : Int}
+    (h1 : evalExpr n σ sc e1 = .ok ⟨.str xs, s⟩ σ1) (h2 : evalExpr n σ1 sc e2 = .ok ⟨.str ys, t⟩ σ2)
+    (hi : evalExpr (n + 1) σ2 sc i = .ok ⟨.int k, si⟩ σ4) (h0 : 0 ≤ k) :
+    (∀ hlt : k.toNat < xs.length,
+      evalExpr (n + 4) σ sc (.mk (.Index (.mk (.BinaryOp .Sum lp e1 e2) ls) i) loc) =
+        .ok (SVal.plain (.str [xs[k.toNat]])) σ4) ∧
+    (∀ (_ : xs.length ≤ k.toNat) (hlt : k.toNat - xs.length < ys.length),
+      evalExpr (n + 4) σ sc (.mk (.Index (.mk (.BinaryOp .Sum lp e1 e2) ls) i) loc) =
+        .ok (SVal.plain (.str [ys[k.toNat - xs.length]])) σ4) ∧
+    (xs.length + ys.length ≤ k.toNat →
+      evalExpr (n + 4) σ sc (.mk (.Index (.mk (.BinaryOp .Sum lp e1 e2) ls) i) loc) =
+        errAt loc (Leaf.OutOfStringBounds k.toNat) σ4) := by
+  have h := evalExpr_concat_index_str lp ls loc h1 h2 hi
+  rw [if_neg (by omega)] at h
+  refine ⟨fun hlt => ?_, fun hge hlt => ?_, fun hge => ?_⟩
+  · rw [h, if_pos hlt, List.getElem?_eq_getElem hlt]
+  · rw [h, if_neg (by omega), List.getElem?_eq_getElem hlt]
+  · rw [h, if_neg (by omega), List.getElem?_eq_none (by omega)]
+
+example : evalExpr 5 σd [0] (.mk (.Index (.mk (.BinaryOp .Sum (4, 2) eS eS) (4, 0)) (eInt 7)) (4, 0)) =
+    .ok (SVal.plain (.str [0xC3])) σd :=
+  (concat_index_law_str (4, 2) (4, 0) (4, 0) (σd_s 0) (σd_s 0) (eInt_eval 1 _ [0] 7) (by decide)).2.1
+    (by decide) (by decide)
+
+/-! ## (4) `x[i] = e`, then `x[j]` -/
+
+/-- **`x[i] = e; rest`** for a variable `x` holding the list cell `a`.  Order: `e` (value `v`, `σ → σ1`), then `i`
+    (integer `k`, `σ1 → σ2`); `xs`: the items of `a` then.
+    * `0 ≤ k < len xs`: the statement completes; the cell `a` holds `listSet xs k v` — same length — and no other cell
+      changed; afterwards `x[j]` evaluates to `v` for `j = k` and to the old `xs[j]` for every other `j` in range.
+    * otherwise the statement (and the block) ends in the error — `index can't be negative` / `index 'k' is outside the
+      list bounds` — in the state `σ2` that evaluating `e` and `i` left: nothing was written. -/
+theorem assign_then_index {n : Nat} {σ σ1 σ2 : State} {sc : List Addr} {x : List Char} {ie rhs : Expr} (lx li : Loc)
+    {v : SVal} {a : Addr} {s s' si : Option Val} {k : Int} {xs : List SVal} (rest : List Stmt)
+    (hr : evalExpr n σ sc rhs = .ok v σ1) (hx : scopeGet σ1 sc x = some ⟨.list a, s⟩)
+    (hi : evalExpr n σ1 sc ie = .ok ⟨.int k, si⟩ σ2) (hxs : σ2.getList a = some xs)
+    (hx2 : scopeGet σ2 sc x = some ⟨.list a, s'⟩) :
+    (0 ≤ k → k.toNat < xs.length →
+      evalStmt (n + 4) σ sc (.Assign (.mk (.Index (.mk (.Var x) lx) ie) li) rhs) =
+        .ok .none (σ2.set a (.list (listSet xs k.toNat v))) ∧
+      evalStmts (n + 5) σ sc (.Assign (.mk (.Index (.mk (.Var x) lx) ie) li) rhs :: rest) =
+        evalStmts (n + 4) (σ2.set a (.list (listSet xs k.toNat v))) sc rest ∧
+      (σ2.set a (.list (listSet xs k.toNat v))).getList a = some (listSet xs k.toNat v) ∧
+      (listSet xs k.toNat v).length = xs.length ∧
+      (∀ b, b ≠ a → (σ2.set a (.list (listSet xs k.toNat v))).heap[b]? = σ2.heap[b]?) ∧
+      (∀ (m : Nat) (je : Expr) (kj : Int) (sj : Option Val) (lx' lj : Loc),
+        evalExpr m (σ2.set a (.list (listSet xs k.toNat v))) sc je =
+          .ok ⟨.int kj, sj⟩ (σ2.set a (.list (listSet xs k.toNat v))) →
+        0 ≤ kj → ∀ hlt : kj.toNat < xs.length,
+        evalExpr (m + 3) (σ2.set a (.list (listSet xs k.toNat v))) sc (.mk (.Index (.mk (.Var x) lx') je) lj) =
+          .ok (if kj = k then v else xs[kj.toNat]) (σ2.set a (.list (listSet xs k.toNat v))))) ∧
+    (k < 0 →
+      evalStmt (n + 4) σ sc (.Assign (.mk (.Index (.mk (.Var x) lx) ie) li) rhs) =
+        errAt ie.loc (Leaf.NegativeIndex k) σ2 ∧
+      evalStmts (n + 5) σ sc (.Assign (.mk (.Index (.mk (.Var x) lx) ie) li) rhs :: rest) =
+        errAt ie.loc (Leaf.NegativeIndex k) σ2) ∧
+    (0 ≤ k → xs.length ≤ k.toNat →
+      evalStmt (n + 4) σ sc (.Assign (.mk (.Index (.mk (.Var x) lx) ie) li) rhs) =
+        errAt li (Leaf.OutOfListBounds k.toNat) σ2 ∧
+      evalStmts (n + 5) σ sc (.Assign (.mk (.Index (.mk (.Var x) lx) ie) li) rhs :: rest) =
+        errAt li (Leaf.OutOfListBounds k.toNat) σ2) := by
+  have h := assign_index_stmt lx li hr hx hi hxs
+  refine ⟨fun h0 hlt => ?_, fun hk => ?_, fun h0 hge => ?_⟩
+  · rw [if_neg (by omega), if_pos hlt] at h
+    refine ⟨h, evalStmts_after rest h, (set_list_facts _ hxs).1, listSet_len _ _ _, (set_list_facts _ hxs).2.1, ?_⟩
+    intro m je kj sj lx' lj hj hkj hlt'
+    rw [index_after_assign lx' lj v hx2 hxs hlt hj, if_neg (by omega)]
+    by_cases hjk : kj = k
+    · subst hjk; simp only [if_true]
+    · have : kj.toNat ≠ k.toNat := by omega
+      simp only [this, hjk, if_false, List.getElem?_eq_getElem hlt']
+  · rw [if_pos hk] at h
+    exact ⟨h, evalStmts_stmt_err rest h⟩
+  · rw [if_neg (by omega), if_neg (by omega)] at h
+    exact ⟨h, evalStmts_stmt_err rest h⟩
+
+/-- the example state satisfies the hypotheses: `x[1] = 99` there -/
+example :
+    evalStmt 5 σd [0] (.Assign (.mk (.Index eX (eInt 1)) (4, 0)) (eInt 99)) =
+      .ok .none (σd.set 1 (.list [SVal.plain (.int 10), SVal.plain (.int 99), SVal.plain (.int 30)])) :=
+  ((assign_then_index (4, 0) (4, 0) [] (eInt_eval 0 σd [0] 99) (by rfl) (eInt_eval 0 σd [0] 1) σd_list1 (by rfl)).1
+    (by decide) (by decide)).1
+
+/-! ## (5) `x[a:b] = ys` -/
+
+/-- **`x[start:stop] = e; rest`** for a variable `x` holding the list cell `a`.  Order: `e` — a list (its items `ys` are
+    read now) or a string (`ys` = its bytes as one-byte strings), `rangeRhs` — then start, then end, then the items `xs`
+    of the TARGET; an omitted end means `len xs`, the length of the target (not of `ys`: defect D5 of the pinned
+    tree).  With `lo := rangeLo ra`, `hi := rangeHi rb (len xs)` the statement is, in this order of checks,
+    `range start (lo) is greater than list length`, `range end (hi) must be greater than range start (lo)`,
+    `range end (hi) is greater than list length`, `cannot bind (len ys) item(s) to (hi - lo) index(s)`, or it completes
+    and the cell `a` holds `listSplice xs lo ys`. -/
+theorem range_assign_program {n : Nat} {σ σ1 σ2 σ3 : State} {sc : List Addr} {x : List Char} {rhs : Expr}
+    {start stop : Option Expr} (lx lr : Loc) {rv : SVal} {a : Addr} {s s' : Option Val} {ra rb : Option Int}
+    {xs ys : List SVal} (rest : List Stmt)
+    (hr : evalExpr n σ sc rhs = .ok rv σ1) (hys : rangeRhs σ1 rv.v = some ys)
+    (hx : scopeGet σ1 sc x = some ⟨.list a, s⟩)
+    (hA : Bound n sc σ1 start ra σ2) (hB : Bound n sc σ2 stop rb σ3) (hra : NonNeg ra) (hrb : NonNeg rb)
+    (hxs : σ3.getList a = some xs) (hx3 : scopeGet σ3 sc x = some ⟨.list a, s'⟩) :
+    evalStmt (n + 6) σ sc (.Assign (.mk (.RangeIndex (.mk (.Var x) lx) start stop) lr) rhs) =
+      (if rangeLo ra > xs.length then errAt lr (Leaf.RangeStartOutOfListBounds (rangeLo ra) xs.length) σ3
+       else if rangeLo ra ≥ rangeHi rb xs.length then
+         errAt lr (Leaf.RangeStartNotBeforeEnd (rangeLo ra) (rangeHi rb xs.length)) σ3
+       else if rangeHi rb xs.length > xs.length then
+         errAt lr (Leaf.RangeEndOutOfListBounds (rangeHi rb xs.length) xs.length) σ3
+       else if rangeHi rb xs.length - rangeLo ra ≠ ys.length then
+         errAt lr (Leaf.RangeIndexItemMismatch (rangeHi rb xs.length - rangeLo ra) ys.length) σ3
+       else .ok .none (σ3.set a (.list (listSplice xs (rangeLo ra) ys)))) ∧
+    (rangeLo ra < rangeHi rb xs.length → rangeHi rb xs.length ≤ xs.length →
+      rangeHi rb xs.length - rangeLo ra = ys.length →
+      evalStmts (n + 7) σ sc (.Assign (.mk (.RangeIndex (.mk (.Var x) lx) start stop) lr) rhs :: rest) =
+        evalStmts (n + 6) (σ3.set a (.list (listSplice xs (rangeLo ra) ys))) sc rest ∧
+      listSplice xs (rangeLo ra) ys = xs.take (rangeLo ra) ++ ys ++ xs.drop (rangeHi rb xs.length) ∧
+      (listSplice xs (rangeLo ra) ys).length = xs.length ∧
+      (σ3.set a (.list (listSplice xs (rangeLo ra) ys))).getList a = some (listSplice xs (rangeLo ra) ys) ∧
+      (∀ b, b ≠ a → (σ3.set a (.list (listSplice xs (rangeLo ra) ys))).heap[b]? = σ3.heap[b]?) ∧
+      (∀ (m : Nat) (je : Expr) (kj : Int) (sj : Option Val) (lx' lj : Loc),
+        evalExpr m (σ3.set a (.list (listSplice xs (rangeLo ra) ys))) sc je =
+          .ok ⟨.int kj, sj⟩ (σ3.set a (.list (listSplice xs (rangeLo ra) ys))) →
+        0 ≤ kj →
+        evalExpr (m + 3) (σ3.set a (.list (listSplice xs (rangeLo ra) ys))) sc
+            (.mk (.Index (.mk (.Var x) lx') je) lj) =
+          match (if kj.toNat < rangeLo ra then xs[kj.toNat]?
+                 else if kj.toNat < rangeHi rb xs.length then ys[kj.toNat - rangeLo ra]? else xs[kj.toNat]?) with
+          | some w => .ok w (σ3.set a (.list (listSplice xs (rangeLo ra) ys)))
+          | none => errAt lj (Leaf.OutOfListBounds kj.toNat) (σ3.set a (.list (listSplice xs (rangeLo ra) ys))))) := by
+  have h := assign_range_stmt lx lr hr hys hx hA hB hra hrb hxs
+  refine ⟨h, fun h1 h2 h3 => ?_⟩
+  have hst : evalStmt (n + 6) σ sc (.Assign (.mk (.RangeIndex (.mk (.Var x) lx) start stop) lr) rhs) =
+      .ok .none (σ3.set a (.list (listSplice xs (rangeLo ra) ys))) := by
+    rw [h, if_neg (by omega), if_neg (by omega), if_neg (by omega), if_neg (by omega)]
+  have hfit : rangeLo ra + ys.length ≤ xs.length := by omega
+  refine ⟨evalStmts_after rest hst, ?_, listSplice_len _ _ _ hfit, (set_list_facts _ hxs).1,
+    (set_list_facts _ hxs).2.1, ?_⟩
+  · unfold listSplice
+    congr 2; omega
+  · intro m je kj sj lx' lj hj hkj
+    rw [index_after_range_assign lx' lj ys hx3 hxs hfit hj, if_neg (by omega)]
+    have e : rangeLo ra + ys.length = rangeHi rb xs.length := by omega
+    rw [e]
+    cases (if kj.toNat < rangeLo ra then xs[kj.toNat]?
+                 else if kj.toNat < rangeHi rb xs.length then ys[kj.toNat - rangeLo ra]? else xs[kj.toNat]?) <;> rfl
+
+/-- **the omitted end is the length of the target** (D5): `x[lo:] = e` completes exactly when `lo < len xs` and `e` has
+    `len xs - lo` items, and then the cell holds `xs.take lo ++ ys` -/
+theorem range_assign_open_end {n : Nat} {σ σ1 σ2 : State} {sc : List Addr} {x : List Char} {rhs : Expr}
+    {start : Option Expr} (lx lr : Loc) {rv : SVal} {a : Addr} {s : Option Val} {ra : Option Int}
+    {xs ys : List SVal}
+    (hr : evalExpr n σ sc rhs = .ok rv σ1) (hys : rangeRhs σ1 rv.v = some ys)
+    (hx : scopeGet σ1 sc x = some ⟨.list a, s⟩)
+    (hA : Bound n sc σ1 start ra σ2) (hra : NonNeg ra) (hxs : σ2.getList a = some xs) :
+    (rangeLo ra < xs.length → xs.length - rangeLo ra = ys.length →
+      evalStmt (n + 6) σ sc (.Assign (.mk (.RangeIndex (.mk (.Var x) lx) start none) lr) rhs) =
+        .ok .none (σ2.set a (.list (xs.take (rangeLo ra) ++ ys)))) ∧
+    (rangeLo ra < xs.length → xs.length - rangeLo ra ≠ ys.length →
+      evalStmt (n + 6) σ sc (.Assign (.mk (.RangeIndex (.mk (.Var x) lx) start none) lr) rhs) =
+        errAt lr (Leaf.RangeIndexItemMismatch (xs.length - rangeLo ra) ys.length) σ2) ∧
+    (xs.length ≤ rangeLo ra → ∃ e,
+      evalStmt (n + 6) σ sc (.Assign (.mk (.RangeIndex (.mk (.Var x) lx) start none) lr) rhs) = .err e σ2) := by
+  have h := assign_range_stmt lx lr hr hys hx hA (Bound.omitted σ2) hra (fun _ h => by cases h) hxs
+  have hhi : rangeHi none xs.length = xs.length := rfl
+  rw [hhi] at h
+  refine ⟨fun h1 h2 => ?_, fun h1 h2 => ?_, fun h1 => ?_⟩
+  · rw [h, if_neg (by omega), if_neg (by omega), if_neg (by omega), if_neg (by omega)]
+    have : listSplice xs (rangeLo ra) ys = xs.take (rangeLo ra) ++ ys := by
+      unfold listSplice
+      rw [List.drop_of_length_le (by omega), List.append_nil]
+    rw [this]
+  · rw [h, if_neg (by omega), if_neg (by omega), if_neg (by omega), if_pos h2]
+  · by_cases h2 : rangeLo ra > xs.length
+    · exact ⟨_, by rw [h, if_pos h2]; rfl⟩
+    · exact ⟨_, by rw [h, if_neg h2, if_pos (by omega)]; rfl⟩
+
+/-- a string on the right contributes its bytes as one-byte strings; any other non-list value is refused before the
+    bounds are looked at -/
+theorem range_assign_rhs (σ : State) (bs : Bytes) (b : Addr) :
+    rangeRhs σ (.str bs) = some (bs.map fun c => SVal.plain (.str [c])) ∧
+    rangeRhs σ (.list b) = σ.getList b ∧
+    rangeRhs σ .null = none ∧ (∀ k, rangeRhs σ (.int k) = none) ∧ (∀ c, rangeRhs σ (.bool c) = none) ∧
+    (∀ o, rangeRhs σ (.obj o) = none) ∧ (∀ f, rangeRhs σ (.func f) = none) ∧
+    (∀ nm f, rangeRhs σ (.builtin nm f) = none) :=
+  ⟨rfl, rfl, rfl, fun _ => rfl, fun _ => rfl, fun _ => rfl, fun _ => rfl, fun _ _ => rfl⟩
+
+theorem range_assign_bad_rhs {n : Nat} {σ σ1 : State} {sc : List Addr} {x : List Char} {rhs : Expr}
+    {start stop : Option Expr} (lx lr : Loc) {rv : SVal} {a : Addr} {s : Option Val}
+    (hr : evalExpr (n + 1) σ sc rhs = .ok rv σ1) (hx : scopeGet σ1 sc x = some ⟨.list a, s⟩)
+    (hl : ∀ b, rv.v ≠ .list b) (hs : ∀ bs, rv.v ≠ .str bs) :
+    evalStmt (n + 3) σ sc (.Assign (.mk (.RangeIndex (.mk (.Var x) lx) start stop) lr) rhs) =
+      errAt lr (Leaf.RangeIndexAssignOnNonIndexable rv.v.kind) σ1 :=
+  assign_range_bad_rhs lx lr hr hx hl hs
+
+example : evalStmt 4 σd [0] (.Assign (.mk (.RangeIndex eX (some (eInt 1)) (some (eInt 2))) (4, 0)) (eInt 3)) =
+    errAt (4, 0) (Leaf.RangeIndexAssignOnNonIndexable .Int) σd :=
+  range_assign_bad_rhs (x := c!"x") (a := 1) (s := none) (4, 0) (4, 0) (eInt_eval 1 σd [0] 3) (by rfl)
+    (by intro b h; cases h) (by intro b h; cases h)
+
+/-- the example state: `x[1:] = y + y` (two items for the two positions 1, 2), and with the string `"ab"` -/
+example :
+    evalStmt 8 σd [0] (.Assign (.mk (.RangeIndex eX (some (eInt 1)) none) (4, 0)) (.mk (.BinaryOp .Sum (4, 9) eY eY) (4, 7))) =
+      .ok .none ((σd.alloc (.list [SVal.plain (.int 7), SVal.plain (.int 7)])).2.set 1
+        (.list [SVal.plain (.int 10), SVal.plain (.int 7), SVal.plain (.int 7)])) :=
+  (range_assign_open_end (x := c!"x") (a := 1) (s := none) (ra := some 1)
+    (xs := [SVal.plain (.int 10), SVal.plain (.int 20), SVal.plain (.int 30)])
+    (ys := [SVal.plain (.int 7), SVal.plain (.int 7)])
+    (σ2 := (σd.alloc (.list [SVal.plain (.int 7), SVal.plain (.int 7)])).2) (4, 0) (4, 0)
+    (evalExpr_sum_lists (4, 9) (4, 7) (σd_y 0) (σd_y 0) σd_list2 σd_list2) (by rfl) (by rfl)
+    (.given (eInt_eval 1 _ [0] 1)) (by decide) (by rfl)).1 (by decide) (by decide)
+
+example :
+    evalStmt 7 σd [0] (.Assign (.mk (.RangeIndex eX none (some (eInt 2))) (4, 0)) (.mk (.Str c!"ab" none) (4, 7))) =
+      .ok .none (σd.set 1 (.list [SVal.plain (.str [97]), SVal.plain (.str [98]), SVal.plain (.int 30)])) :=
+  ((range_assign_program (x := c!"x") (a := 1) (s := none) (s' := none) (ra := none) (rb := some 2)
+    (xs := [SVal.plain (.int 10), SVal.plain (.int 20), SVal.plain (.int 30)])
+    (ys := [SVal.plain (.str [97]), SVal.plain (.str [98])]) (rv := SVal.plain (.str [97, 98]))
+    (4, 0) (4, 0) [] (n := 1) (by rw [evalExpr]; rfl) (by rfl) (by rfl) (.omitted σd)
+    (.given (eInt_eval 0 σd [0] 2)) (by decide) (by decide) σd_list1 (by rfl)).1).trans (by rfl)
+
+/-! ## whole programs -/
+
+/-- reading: in range, past the end (`xs[3]` of three items is an error, it does not wrap to `xs[0]`), negative -/
+example :
+    (run 300 c!"t.sd" c!"xs := [10, 20, 30];\nprint(xs[0]);\nprint(xs[2]);\nprint(xs[3]);\n").out = [c!"10", c!"30"] ∧
+    (run 300 c!"t.sd" c!"xs := [10, 20, 30];\nprint(xs[0]);\nprint(xs[2]);\nprint(xs[3]);\n").stderr =
+      c!"t.sd:4:7: index '3' is outside the list bounds\n" ∧
+    (run 300 c!"t.sd" c!"xs := [10, 20, 30];\nprint(xs[0 - 1]);\n").stderr = c!"t.sd:2:10: index can't be negative\n" ∧
+    (run 300 c!"t.sd" c!"print(\"abc\"[1]);\nprint(\"abc\"[3]);\n").out = [c!"b"] ∧
+    (run 300 c!"t.sd" c!"print(\"abc\"[1]);\nprint(\"abc\"[3]);\n").stderr =
+      c!"t.sd:2:7: index '3' is outside the string bounds\n" := by
+  decide +kernel
+
+/-- slices: bytes of a string (`é` is two bytes), a fresh list each time (`xs[:] === xs` is `false`), `[3:2]` an error -/
+example :
+    (run 300 c!"t.sd" c!"print(\"héllo\"[1:3] == \"é\");\nprint(\"hello\"[1:3]);\nprint(\"hello\"[4:6]);\n").out =
+      [c!"true", c!"el"] ∧
+    (run 300 c!"t.sd" c!"print(\"héllo\"[1:3] == \"é\");\nprint(\"hello\"[1:3]);\nprint(\"hello\"[4:6]);\n").stderr =
+      c!"t.sd:3:7: range [4:6] is outside the string bounds\n" ∧
+    (run 300 c!"t.sd" c!"xs := [1, 2, 3, 4, 5];\nprint(xs[:2] == [1, 2]);\nprint(xs[3:] == [4, 5]);\nprint(xs[:] === xs);\nprint(xs[3:2]);\n").out =
+      [c!"true", c!"true", c!"false"] ∧
+    (run 300 c!"t.sd" c!"xs := [1, 2, 3, 4, 5];\nprint(xs[:2] == [1, 2]);\nprint(xs[3:] == [4, 5]);\nprint(xs[:] === xs);\nprint(xs[3:2]);\n").stderr =
+      c!"t.sd:5:7: range [3:2] is outside the list bounds\n" := by
+  decide +kernel
+
+/-- `x[:k] + x[k:] == x` at both ends and in the middle, with a nested list and an object among the items; the
+    concatenation is a different list (`===` is `false`); `(x + y)[i]` -/
+example :
+    (run 300 c!"t.sd" c!"x := [1, \"a\", [2], {\"k\": 3}];\nprint((x[:0] + x[0:]) == x);\nprint((x[:2] + x[2:]) == x);\nprint((x[:4] + x[4:]) == x);\nprint((x[:2] + x[2:]) === x);\ny := [7, 8];\nprint((x + y)[3] == x[3]);\nprint((x + y)[4]);\nprint((x + y)[5]);\nprint((x + y)[6]);\n").out =
+      [c!"true", c!"true", c!"true", c!"false", c!"true", c!"7", c!"8"] ∧
+    (run 300 c!"t.sd" c!"x := [1, \"a\", [2], {\"k\": 3}];\nprint((x[:0] + x[0:]) == x);\nprint((x[:2] + x[2:]) == x);\nprint((x[:4] + x[4:]) == x);\nprint((x[:2] + x[2:]) === x);\ny := [7, 8];\nprint((x + y)[3] == x[3]);\nprint((x + y)[4]);\nprint((x + y)[5]);\nprint((x + y)[6]);\n").stderr =
+      c!"t.sd:10:7: index '6' is outside the list bounds\n" := by
+  decide +kernel
+
+/-- `x[1] = 20`: position 1 changed, 0 and 2 kept, seen through the alias `y` too; `x[3] = 4` is an error -/
+example :
+    (run 300 c!"t.sd" c!"x := [1, 2, 3];\ny := x;\nx[1] = 20;\nprint(x[0]);\nprint(x[1]);\nprint(x[2]);\nprint(y[1]);\nprint(x == [1, 20, 3]);\nx[3] = 4;\nprint(0);\n").out =
+      [c!"1", c!"20", c!"3", c!"20", c!"true"] ∧
+    (run 300 c!"t.sd" c!"x := [1, 2, 3];\ny := x;\nx[1] = 20;\nprint(x[0]);\nprint(x[1]);\nprint(x[2]);\nprint(y[1]);\nprint(x == [1, 20, 3]);\nx[3] = 4;\nprint(0);\n").stderr =
+      c!"t.sd:9:1: index '3' is outside the list bounds\n" ∧
+    (run 300 c!"t.sd" c!"x := [1, 2, 3];\nx[0 - 1] = 4;\n").stderr = c!"t.sd:2:3: index can't be negative\n" := by
+  decide +kernel
+
+/-- range assignment: the omitted end is the length of the target (D5), a string contributes its bytes, and the four
+    refusals -/
+example :
+    (run 300 c!"t.sd" c!"xs := [1, 2, 3, 4, 5];\nxs[2:] = [7, 8, 9];\nprint(xs == [1, 2, 7, 8, 9]);\nxs[1:3] = \"ab\";\nprint(xs == [1, \"a\", \"b\", 8, 9]);\nxs[:2] = [0];\n").out =
+      [c!"true", c!"true"] ∧
+    (run 300 c!"t.sd" c!"xs := [1, 2, 3, 4, 5];\nxs[2:] = [7, 8, 9];\nprint(xs == [1, 2, 7, 8, 9]);\nxs[1:3] = \"ab\";\nprint(xs == [1, \"a\", \"b\", 8, 9]);\nxs[:2] = [0];\n").stderr =
+      c!"t.sd:6:1: cannot bind 1 item(s) to 2 index(s)\n" ∧
+    (run 300 c!"t.sd" c!"xs := [1, 2, 3, 4, 5];\nxs[2:] = [7, 8];\n").stderr =
+      c!"t.sd:2:1: cannot bind 2 item(s) to 3 index(s)\n" ∧
+    (run 300 c!"t.sd" c!"xs := [1, 2, 3, 4, 5];\nxs[2:2] = [];\n").stderr =
+      c!"t.sd:2:1: range end (2) must be greater than range start (2)\n" ∧
+    (run 300 c!"t.sd" c!"xs := [1, 2, 3, 4, 5];\nxs[1:9] = [1];\n").stderr =
+      c!"t.sd:2:1: range end (9) is greater than list length (5)\n" ∧
+    (run 300 c!"t.sd" c!"xs := [1, 2, 3, 4, 5];\nxs[7:9] = [1];\n").stderr =
+      c!"t.sd:2:1: range start (7) is greater than list length (5)\n" ∧
+    (run 300 c!"t.sd" c!"xs := [1, 2, 3, 4, 5];\nxs[1:2] = 3;\n").stderr =
+      c!"t.sd:2:1: only 'list's or 'string's can be assigned to range indexes, got 'int'\n" := by
+  decide +kernel
 
 end Seed.C11
